@@ -208,7 +208,12 @@ macro_rules! shim_atomic {
             #[track_caller]
             pub fn compare_exchange(&self, current: $value, new: $value, success: Ordering, failure: Ordering) -> Result<$value, $value> {
                 point(PointKind::Cas);
-                self.0.compare_exchange(current, new, success, failure)
+                let result = self.0.compare_exchange(current, new, success, failure);
+                if result.is_err() {
+                    // a failed CAS is (nearly always) the body of a retry loop: tell the simulator so
+                    spin_hint();
+                }
+                result
             }
             #[inline(always)]
             #[track_caller]
@@ -217,10 +222,15 @@ macro_rules! shim_atomic {
                 if let Some(hooks) = hooks() {
                     let observed = self.0.load(Ordering::Relaxed);
                     if observed == current && (hooks.weak_cas_fails)(Location::caller()) {
+                        spin_hint();
                         return Err(observed);
                     }
                 }
-                self.0.compare_exchange(current, new, success, failure)
+                let result = self.0.compare_exchange(current, new, success, failure);
+                if result.is_err() {
+                    spin_hint();
+                }
+                result
             }
             /// un-instrumented read, for harness-side inspection only
             #[inline(always)]
@@ -269,7 +279,6 @@ impl RawMutex {
     #[track_caller]
     pub fn lock(&self) {
         while self.0.compare_exchange(false, true, Ordering::Acquire, Ordering::Relaxed).is_err() {
-            spin_hint();
             std::hint::spin_loop();
         }
     }
